@@ -6,6 +6,8 @@ using namespace VATA;
 typedef U::SymAut<NS> SA;
 
 // decode a library automaton over states < NS back into masks by iterating it; returns false if something outside U occurs
+// (the result is read under A's state numbers: the statement speaks of the states / rules that REMAIN resp. STILL OCCUR, i.e.
+// the operations remove, they do not rename - the library's own optional out-map of both operations is the identity)
 static bool decode(const ExplicitTreeAut& aut, SA& out)
 {
   out.nrules = U::Univ<NS>::count();
@@ -24,6 +26,14 @@ static bool decode(const ExplicitTreeAut& aut, SA& out)
   for (unsigned s = 0; s < NS; ++s) out.fin[s] = aut.IsStateFinal(s);
   for (const auto& s : aut.GetFinalStates()) ok = ok & (s < NS);
   return ok;
+}
+
+// states that occur in a rule (as parent or child) or are final
+static unsigned occurring(const SA& a)
+{
+  unsigned m = U::finalMask(a);
+  for (unsigned i = 0; i < a.nrules; ++i) { U::Rule r = U::Univ<NS>::rule(i); m |= (unsigned)a.pres[i] << r.parent; for (unsigned k = 0; k < r.rank; ++k) m |= (unsigned)a.pres[i] << r.child[k]; }
+  return m;
 }
 
 extern "C" void harness(void)
@@ -47,6 +57,13 @@ extern "C" void harness(void)
 #endif
     CHECK(!R.pres[i] || good, 2); }
   for (unsigned s = 0; s < NS; ++s) CHECK(!R.fin[s] || (A.fin[s] && ((useful >> s) & 1)), 3);
+  // the statement itself, read on the RESULT (ids 2/3 relate the result to A's useful part, which does not exclude a result
+  // that dropped a rule and thereby left another one dangling): every state and rule of R takes part in an accepting run of R
+  { const unsigned prodR = U::productive(R), usefulR = U::usefulStates(R);
+    CHECK((occurring(R) & ~usefulR) == 0, 7);
+    for (unsigned i = 0; i < R.nrules; ++i) { U::Rule r = U::Univ<NS>::rule(i); bool good = (usefulR >> r.parent) & 1;
+      for (unsigned k = 0; k < r.rank; ++k) good = good && ((prodR >> r.child[k]) & 1);
+      CHECK(!R.pres[i] || good, 8); } }
   // same language (both inclusions, independent macro-state oracle)
   CHECK((U::included<NS, NS>(A, R)), 4); CHECK((U::included<NS, NS>(R, A)), 5);
   CHECK(aut.IsLangEmpty() == U::langEmpty(A), 6);
@@ -56,7 +73,9 @@ extern "C" void harness(void)
   for (unsigned i = 0; i < R.nrules; ++i) { U::Rule r = U::Univ<NS>::rule(i);
     // every state that still occurs is reachable top-down from a final state (parent reachable => children reachable)
     CHECK(!R.pres[i] || (A.pres[i] && ((reach >> r.parent) & 1)), 12); }
-  for (unsigned s = 0; s < NS; ++s) CHECK(R.fin[s] == A.fin[s], 13);
+  for (unsigned s = 0; s < NS; ++s) CHECK(!R.fin[s] || A.fin[s], 13);     // no invented final state (language equality is checked below)
+  // the statement itself, read on the RESULT: every state that occurs in R is reachable top-down from a final state of R
+  CHECK((occurring(R) & ~U::reachableTD(R)) == 0, 16);
   CHECK((U::included<NS, NS>(A, R)), 14); CHECK((U::included<NS, NS>(R, A)), 15);
 #endif
   // operand unchanged
